@@ -20,10 +20,15 @@ ASSUME = ["E1 on the bounded box decides feasibility (tasks are confined to [0,H
 NAME_RE = re.compile(r"->\s*(\w+)\(\s*name='((?:[^'\\]|\\.)*)'", re.S)
 
 
-def diagnose(program, debug=True, calls=1, other_problem=False):
+def dsl_has_objective(program):
+    return any(d["k"] == "new" and d["cls"].startswith("Objective") for d in program["decls"])
+
+
+def diagnose(program, debug=True, calls=1, other_problem=False, opts=None, after_debug_solver=False):
     """Run solve() `calls` times on one solver object; what is returned and printed by the LAST call.
     other_problem=True: another problem (same constraint names, other values) is declared after the solver was
-    created and before it is asked."""
+    created and before it is asked. opts: further solver options. after_debug_solver=True: ANOTHER debug solver
+    object was created on the same problem and asked first (its verdict is dropped); the answer is the later solver's."""
     import processscheduler as ps
 
     built = dsl.build(program)
@@ -31,7 +36,9 @@ def diagnose(program, debug=True, calls=1, other_problem=False):
     with boot.no_fd2():
         try:
             with boot.quiet(capture=True):
-                solver = ps.SchedulingSolver(problem=built.pb, debug=debug, max_time=30)
+                if after_debug_solver:
+                    ps.SchedulingSolver(problem=built.pb, debug=True, max_time=30, **(opts or {})).solve()
+                solver = ps.SchedulingSolver(problem=built.pb, debug=debug, max_time=30, **(opts or {}))
                 if other_problem:
                     ps.SchedulingProblem(name="what_if_variant", horizon=50)
                     t_ = ps.FixedDurationTask(name="t_other", duration=1)
@@ -76,10 +83,11 @@ def job(j):
             e = sigs.setdefault(k, [0, None, sig])
             e[0] += 1
             if e[1] is None:
-                e[1] = {"program": program, "what": what, "detail": detail, "expect": "diagnosis"}
+                e[1] = {"program": program, "what": what, "detail": detail, "expect": "diagnosis", "solver": j.get("solver")}
 
-        sol, err, text, named, b = diagnose(program, debug=True)
-        sol0, err0, text0, _n, _b = diagnose(program, debug=False)
+        opts = j.get("solver") or {}
+        sol, err, text, named, b = diagnose(program, debug=True, opts=opts)
+        sol0, err0, text0, _n, _b = diagnose(program, debug=False, opts=opts)
         if err:
             record("debug-run-raised", err)
         elif not leaves:
@@ -89,7 +97,9 @@ def job(j):
                 record("debug-run-returned-solution-for-infeasible-problem", repr(hs.timing_of_solution(program, sol)))
             elif unsat_said or named is not None:
                 if named is None:
-                    record("no-diagnosis-printed", text[-200:])
+                    # the incremental optimisation loop never prints a diagnosis (it lists nothing, so nothing it lists is wrong)
+                    if not (dsl_has_objective(program) and opts.get("optimizer", "incremental") == "incremental"):
+                        record("no-diagnosis-printed", text[-200:])
                 else:
                     res["named"] = len(named)
                     cons_by_name = {d["args"].get("name"): d for d in program["decls"] if d["k"] == "new" and d["cls"] in ref.CONSTRAINT_CLS}
@@ -109,7 +119,7 @@ def job(j):
                         res["checks"] += st3.checks
                         if not l2:
                             # with another problem declared in the meantime, the diagnosis still speaks of this problem
-                            sol_o, err_o, text_o, named_o, _bo = diagnose(program, debug=True, other_problem=True)
+                            sol_o, err_o, text_o, named_o, _bo = diagnose(program, debug=True, other_problem=True, opts=opts)
                             if err_o or sol_o or named_o is None:
                                 record("diagnosis-changed-by-another-problem", err_o or f"named {named} alone, {named_o} once another problem was declared")
                             elif set(named_o) != set(named):
@@ -126,8 +136,27 @@ def job(j):
                                     res["checks"] += st5.checks
                                 if l5:
                                     record("diagnosis-changed-by-another-problem", f"named {named} alone, {named_o} once another problem was declared")
+                            # a later solver object on the same problem (debug or not) still sees the whole problem
+                            sol_p, err_p, text_p, _np, _bp = diagnose(program, debug=False, opts=opts, after_debug_solver=True)
+                            if err_p or sol_p or "no solution exists" not in text_p:
+                                record("plain-solver-after-a-debug-solver-disagrees", err_p or (repr(hs.timing_of_solution(program, sol_p)) if sol_p else text_p[-200:]))
+                            sol_d, err_d, text_d, named_d, _bd = diagnose(program, debug=True, opts=opts, after_debug_solver=True)
+                            if err_d or sol_d or named_d is None:
+                                record("second-debug-solver-gives-no-diagnosis", err_d or text_d[-200:])
+                            elif set(named_d) != set(named):
+                                b6 = dsl.build(program)
+                                l6 = [None]
+                                if all(n in b6.pb.constraints for n in named_d):
+                                    for cname, cobj in b6.pb.constraints.items():
+                                        if cname not in named_d:
+                                            cobj._z3_assertions = []
+                                    st6 = ex.Stats()
+                                    l6 = list(ex.explore(analysis.make_solver(b6, {})._solver, ex.primaries(b6), st6))
+                                    res["checks"] += st6.checks
+                                if l6:
+                                    record("second-debug-solver-names-a-satisfiable-set", f"first solver named {named}, a second debug solver on the same problem named {named_d}")
                             # asked again, the same solver object must still give a diagnosis that holds
-                            sol_2, err_2, text_2, named_2, _b2 = diagnose(program, debug=True, calls=2)
+                            sol_2, err_2, text_2, named_2, _b2 = diagnose(program, debug=True, calls=2, opts=opts)
                             if err_2 or sol_2 or named_2 is None:
                                 record("second-call-gives-no-diagnosis", err_2 or text_2[-200:])
                             elif set(named_2) != set(named):
@@ -265,6 +294,20 @@ def jobs(tier):
     out.append({"program": prog(2, opt + [con("TaskStartAfter", "cs", name="a_scheduled", task=R("b"), value=0)]), "family": "name-like-unknown"})
     out.append({"program": prog(2, opt + [con("TaskStartAt", "cs", name="b_start", task=R("b"), value=1), con("TaskEndBefore", "ce", name="horizon", task=R("b"), value=2)]), "family": "name-like-unknown"})
     out.append({"program": prog(2, opt + [con("TaskStartAt", "cs", name="a_scheduled", task=R("b"), value=1), con("TaskEndBefore", "ce", name="a_end", task=R("b"), value=1)]), "family": "name-like-unknown"})
+    # 4d. an objective next to the conflict. Only the incremental optimiser: with optimizer="optimize" the tracked assertions go
+    # through z3.Optimize, whose unsat-core extraction segfaults the interpreter after a few problems in one process (z3 4.12.6;
+    # seen on the unchanged tree), so that combination cannot be explored here - see DESIGN 12.13.
+    for optimizer in ("incremental",):
+        for oi, obj in enumerate((new("ObjectiveMinimizeMakespan", "om"), new("ObjectiveMaximizeIndicator", "om", target=R("ie"), weight=1))):
+            pre = [new("IndicatorFromMathExpression", "ie", name="end_a", expression=E(["end", "a"]))] if oi else []
+            for pr in pairs[:4] + pairs[6:7]:
+                for k in (0, 1):
+                    decls = list(pr)
+                    if k:
+                        decls.insert(1, irrelevant(0))
+                    out.append({"program": prog(2, base + pre + decls + [obj]), "solver": {"optimizer": optimizer}, "family": f"objective/{optimizer}"})
+            out.append({"program": prog(3, base + pre + [con("TaskStartAt", "p1", task=R("a"), value=1), obj]), "solver": {"optimizer": optimizer},
+                        "family": f"objective/{optimizer}"})
     # 5. buffers (basic rules) with a constraint: concurrent buffers go through quantified assertions
     for cls in ("ConcurrentBuffer", "NonConcurrentBuffer"):
         for q, lab in ((2, "infeasible"), (1, "feasible")):
@@ -276,7 +319,7 @@ def jobs(tier):
 
 
 def replay(inst):
-    r = job({"program": inst["program"], "family": "replay"})
+    r = job({"program": inst["program"], "family": "replay", "solver": inst.get("solver")})
     bad = [v for v in r.get("viol", []) if v["sig"]["what"] == inst["what"]]
     print(json.dumps({"violation": inst["what"] if bad else None, "detail": [v["instance"]["detail"] for v in bad][:1], "error": r.get("error")}))
     return 1 if bad else 0
@@ -288,7 +331,7 @@ def confirm(inst):
     import os
 
     inst["standalone"] = ('"""Stand-alone replay generated by /verif.\n' + f"{inst['what']}: {inst['detail']}\n" + '"""\n' + dsl.gen_source(inst["program"])
-                          + "solver = ps.SchedulingSolver(problem=pb, debug=True)\nsolution = solver.solve()\nprint(solution)\n")
+                          + f"solver = ps.SchedulingSolver(problem=pb, debug=True, **{inst.get('solver') or {}!r})\nsolution = solver.solve()\nprint(solution)\n")
     outs = []
     for _ in range(2):
         p = subprocess.run([sys.executable, "-m", "props.hist_replay", "C19"], input=json.dumps(inst, default=list), capture_output=True,
